@@ -18,6 +18,7 @@
 (*   "repetition"  games that shuffle back into earlier positions (C09)    *)
 (*   "pressure"    one game, deep searches, no ucinewgame: a large table    *)
 (*   "heavy"       the same with a depth-8 search first (> 2^18 entries)      *)
+(*   "huge"        a pawn endgame searched to depth 17 (> 2^20 entries)      *)
 (***************************************************************************)
 EXTENDS Uci, Json, IOUtils
 
@@ -89,8 +90,9 @@ SetGame(g) == /\ CmdPosition(g.start, g.ms, <<>>)
 HmSet == {0, 1, 49, 50, 99, 100, 149}
 FmSet == {1, 2, 60, 255, 256, 300, 1000, 5949}
 GenPositionStartpos == SetGame(StartGame)
-GenPositionFen == SetGame([sp |-> FALSE, start |-> RandomElement(SeedPos \cup {board}), hm |-> RandomElement(HmSet),
-                           fm |-> RandomElement(FmSet), ms |-> <<>>])
+GenPositionFen == IF Profile = "huge" THEN SetGame([sp |-> FALSE, start |-> RandomElement(SeedPos), hm |-> 0, fm |-> 1, ms |-> <<>>])
+                  ELSE SetGame([sp |-> FALSE, start |-> RandomElement(SeedPos \cup {board}), hm |-> RandomElement(HmSet),
+                                fm |-> RandomElement(FmSet), ms |-> <<>>])
 \* extend the current game by up to k random legal moves (as a GUI re-sends the growing list)
 \* Half of the moves of a generated game are drawn from the moves that ARE special or only LOOK special in their text or on
 \* the board: anything arriving on the en-passant square (the capture itself, and a piece that merely lands there), anything
@@ -117,7 +119,8 @@ CanonicalAnswer == <<[t |-> "bestmove", move |-> IF Legal(board) = {} THEN "0000
 DoGo(g) == CmdGo(CanonicalAnswer) /\ EmitGo(g) /\ Step /\ UNCHANGED <<game, older>>
 NoOrder == <<>>
 GenGoDepth == DoGo(GoRec(RandomElement(IF Profile = "determinism" THEN 1..4 ELSE IF Profile = "pressure" THEN {6, 7}
-                                      ELSE IF Profile = "heavy" THEN (IF n <= 3 THEN {8} ELSE {7}) ELSE 1..3),
+                                      ELSE IF Profile = "heavy" THEN (IF n <= 3 THEN {8} ELSE {7})
+                                      ELSE IF Profile = "huge" THEN {17} ELSE 1..3),
                         -1, -1, -1, -1, -1, NoOrder))
 GenGoMovetime == DoGo(GoRec(-1, RandomElement({0, 1, 5, 50}), -1, -1, -1, -1, NoOrder))
 GenGoDepthMovetime == DoGo(GoRec(RandomElement(1..6), RandomElement({0, 1, 5, 50}), -1, -1, -1, -1, NoOrder))
@@ -218,6 +221,9 @@ Menu ==
     \* the same with one depth-8 search early on: more than a quarter of a million entries after the first go,
     \* beyond any plausible "bounded table" of 2^18 entries (seeded change C13d: eviction in hash-map order)
     [] Profile = "heavy" -> <<"extend", "godepth", "godepth">>
+    \* one pawn endgame (the seed list of this profile holds nothing else) searched to depth 17: several million distinct
+    \* positions, more than 2^20 table entries; the position command always comes first (PickFor)
+    [] Profile = "huge" -> <<"godepth">>
     [] Profile = "repetition" -> <<"startpos", "fen", "extend", "shuffle", "shuffle", "cycle", "cycle", "cycle", "cycle", "back",
                                   "newgame", "rcycle", "rcycle", "epcycle", "again", "twin", "old">>
 Do(w) == CASE w = "uci" -> GenUci [] w = "isready" -> GenIsReady [] w = "newgame" -> GenNewGame [] w = "unknown" -> GenUnknown
@@ -230,6 +236,7 @@ Do(w) == CASE w = "uci" -> GenUci [] w = "isready" -> GenIsReady [] w = "newgame
 \* (after a very long game - "old" - the next position command starts a short one again: validating a 130-ply history costs
 \*  TLC as much as a whole ordinary script, one per script is enough)
 PickFor(k, g) == LET m == IF k >= MaxCmds THEN <<"quit", "eof">>
+                          ELSE IF Profile = "huge" THEN (IF g.sp THEN <<"fen">> ELSE <<"godepth">>)
                           ELSE IF Len(g.ms) > 60 THEN <<"startpos", "fen", "newgame", "twin", "isready">>
                           ELSE IF k >= (2 * MaxCmds) \div 3 THEN Menu \o <<"quit", "eof">> ELSE Menu
                  IN m[RandomElement(1..Len(m))]
